@@ -92,6 +92,13 @@ CHECKS = {
             'target snapshot unchanged in every non-success case.',
             'One-step deletion semantics as listed in the check; wildcard deletion is decided in C14.',
             '3/C12'),
+    'C15': ('model_checking',
+            'bounded exhaustive enumeration of (reduction spec, input sequence) with every spec object evaluated three times, against functools.reduce / sum / chain.from_iterable / dict.update',
+            'Every element sequence of length <= 3 over eight element menus as list / tuple / generator / dict keys (and non-iterables) x Fold for 8 inits x 3 ops, Sum, Flatten '
+            '(eager, lazy), Merge, flatten(levels 0..3), merge(), sub-spec T or a key: value and type equal the plain reduction (same exception class when it raises, FoldError for '
+            'non-iterables), inputs keep their canonical snapshot, init() is called once per evaluation, and the result object of each of the three evaluations of one spec object is fresh.',
+            'Where builtin sum() is undefined but += is (list += tuple) the += result is the reference.',
+            '3/C15'),
 }
 
 NOT_YET = {}
